@@ -4,47 +4,57 @@ import random
 
 import numpy as np
 
-from ..common import intss, parse_ints, quiet
+from ..common import F, intss, ints, ratss, rat, parse_ints, parse_ratss, quiet
 
 PID = "C20"
 CLAIM = dict(
     design="3/C20",
-    technique="Lean 4 proof (generic finite-group averaging; the marking loop of find_irreducible_Rab over an abstract "
-              "finite action) + exact differential correspondence of the irreducible (R,a,b) search on real symmetrizers "
-              "+ property oracle on the real symmetrize for random models in several space groups",
+    technique="Lean 4 proof (the marking loop of find_irreducible_Rab over an abstract finite action; generic finite-group "
+              "averaging with explicit normalisation; the block formula of average_XX_block/_rotate_XX_L_backwards over an "
+              "abstract (co)representation proved to BE that average) + exact differential correspondence (irreducible "
+              "(R,a,b) search; the real average_XX_block against the executable block formula on exact input) + numeric "
+              "check of the theorem's hypotheses on the real Dwann data + property oracle on the real symmetrize for random "
+              "models in many space groups, entry points and options",
     text="Theorems: (A) for every number of points and every listed set of operations whose reachability relation is "
          "symmetric and transitive (a group acting on a closed (R,a,b) set; Mathlib MulAction corollary), the marking "
          "loop keeps exactly the first point in iteration order of every orbit - one representative per orbit; "
          "(B) for every finite group acting additively on any space of real-space matrices (antiunitary operations "
-         "included: scalars K may be the reals), the average (1/|G|) sum_g g.X is invariant under every g, fixes "
-         "invariant objects, is idempotent, and commutes with every additive map commuting with the action - in "
-         "particular with X(R) -> X(-R)^dagger, which is shown to commute with X -> D X(sR) D^dagger and with its "
-         "time-reversed form; the normalisation is explicit: the sum over the selected operations divided by a count n is "
-         "idempotent (on a non-zero result) iff n is the number of operations summed over, so a subgroup average divided "
-         "by the order of the full group is not a projection (counterexample theorem).  PARTIAL: that average_XX_block/_rotate_XX_L_backwards implement that average "
-         "(orbital rotation matrices, back rotation, spinor factors, I/TR parities) is checked on the real code "
-         "(E(gk)=E(k), Berry curvature and spin covariance for every g, Hermiticity, centre map, idempotence), "
-         "not proved.  The oracle covers every public entry point (System_R.symmetrize; symmetrize2(symmetrizer) "
-         "called directly with a hand-built SymmetrizerSAWF, with and without time reversal in the group, always on a "
-         "system that was used before the call so that its caches are populated; from_wannierdata in the thorough tier) "
-         "and the option space of symmetrize/symmetrize2 (use_symmetries_index = trivial, "
-         "unitary and randomly generated proper subgroups in scrambled order; cutoff) and always refers to the group "
-         "actually used, including an independent average of the k-space traces over exactly the selected operations.",
+         "included), the average (1/|G|) sum_g g.X is invariant under every g, fixes invariant objects, is idempotent, and "
+         "commutes with every additive map commuting with the action, in particular X(R) -> X(-R)^dagger; the sum over "
+         "the selected operations divided by a count n is idempotent iff n is the number of operations summed over; "
+         "(C) average_block_is_group_average: the block formula the code evaluates, X'(R,a,b)_i = (1/|S|) sum_g "
+         "conj^{tr g}( sum_j Rc(g)_{ji} D_a(g)^dagger X(gR + T(g,a) - T(g,b), ga, gb)_j D_b(g) ), with the back rotation of "
+         "Cartesian indices, the T1-T2 lattice shift, TR conjugation and the I/TR parity signs, IS that average for the "
+         "action g.X = pull(g^-1) X, under explicit hypotheses (atom maps are group actions; translation cocycle; "
+         "D(gh,a) = w(g,h) D(g,ha) conj^{tr g} D(h,a) with a unimodular phase common to the blocks; real Cartesian "
+         "representation; tr a homomorphism) - hence it is invariant, idempotent and preserves Hermiticity; the "
+         "executable entry formula compared with the code is proved equal to the entries of pull.",
     note="Trusted: Lean kernel + Mathlib; the harness; irrep.SpaceGroup (operations, translations, TR flags) as the "
-         "definition of 'the resulting group'; numpy eigh; evaluate_k for the Berry curvature.",
+         "definition of 'the resulting group'; numpy eigh; evaluate_k for the Berry curvature.  The hypotheses of (C) are "
+         "CHECKED numerically on the rot_orb / atommap / T arrays of every tested symmetrizer, not proved for Dwann. "
+         "PARTIAL (checked only): Dwann / set_D_wann_from_projections produce a representation; the two-pass driver "
+         "SymWann.symmetrize (new R-vectors, mode 'single', assembly over blocks); symmetrize_WCC; System_R glue. "
+         "The oracle covers every public entry point and the option space (use_symmetries_index subgroups, cutoff) and "
+         "always refers to the group actually used.",
 )
 TRUSTED = [
     "modelled and proved: the marking loop of SymWann.find_irreducible_Rab over an abstract finite (partial) action; "
-    "generic group averaging (projection, idempotence, commutation with the Hermitian-conjugate reflection)",
-    "PARTIAL / checked only: average_XX_block, _rotate_XX_L_backwards, SymmetrizerSAWF.set_D_wann_from_projections, "
-    "Dwann (atom maps, T vectors, orbital rotation matrices), symmetrize_WCC, System_R.symmetrize/symmetrize2 glue",
+    "generic group averaging (projection, idempotence, normalisation, commutation with the Hermitian-conjugate reflection); "
+    "the per-operation contribution of average_XX_block + _rotate_XX_L_backwards (mode 'sum') and its sum over the operation "
+    "list, as a group average over an abstract (co)representation",
+    "hypotheses of average_block_is_group_average (BlockRep): checked numerically (1e-10) on rot_orb_list, atommap_list, "
+    "T_list, rotation_cart and time_reversal of every symmetrizer the oracle builds; not proved for Dwann",
+    "PARTIAL / checked only: SymmetrizerSAWF.set_D_wann_from_projections, Dwann, SymWann.symmetrize (two passes, new "
+    "R-vectors, mode 'single', block assembly), symmetrize_WCC, System_R.symmetrize/symmetrize2 glue",
     "irrep.SpaceGroup / spglib supply the group (rotations in lattice coordinates, translations, time-reversal flags)",
     "the oracle's k-space quantities: energies, spin and the gauge-invariant rank-2 band tensors of AA and SS from an own "
     "Fourier sum of the symmetrised matrices (all operations); Berry curvature from wannierberri.evaluate_k (internal+"
     "external terms); degenerate groups are compared as a whole",
     "SystemSOC.symmetrize2 / SystemSOC.from_wannierdata are not driven (they need a full SOC data set); their first step is "
     "System_R.symmetrize2 called directly, which is exercised",
-    "the action table handed to the Lean model is assembled by the harness from the real get_atom_R_map/index_R/atommap",
+    "the action table and the operation data handed to the Lean model are assembled by the harness from the real "
+    "get_atom_R_map/index_R/atommap/T_list/rot_orb_list/rotation_cart; average_XX_block is compared on spinless blocks "
+    "(real orbital matrices) so that the model runs in exact rational arithmetic on the same float inputs (tolerance 1e-12)",
 ]
 RULE = ("random Hermitian models (wbsys.rand_system: 4-10 random R-vectors, random centres) symmetrised with the real "
         "System_R.symmetrize for structures covering cubic, tetragonal, hexagonal/trigonal (screw axis), orthorhombic, "
@@ -601,6 +611,11 @@ def check_structure(ctx, name, st, sub_seed, n_k, max_g, n_sub=2, tower=True, ro
         if kf_c:
             ctx.count("oracle.class.orbital_mixing_operations")
         worst = ctx.__dict__.setdefault("_c20_worst", dict(herm=0.0, centre=0.0, E=0.0, S=0.0, Omega_rel=0.0, idem=0.0))
+        # ---- the hypotheses of the Lean theorem on the ingredients the code uses for this structure
+        done = ctx.__dict__.setdefault("_c20_rep_done", set())
+        if (name, route) not in done:         # the ingredients depend on the structure, not on the random model
+            done.add((name, route))
+            check_rep_hypotheses(ctx, name, sym, ops, rs, max_pairs=ctx.n(150, 500))
         # ---- full group (high-level interface)
         if not verify_result(ctx, f"{name}[full group]", info, st, s, s_raw, ops, list(range(nsym)), rs, kf_c,
                              n_k, max_g, worst):
@@ -725,7 +740,7 @@ def oracle(ctx, scale):
         sub = rng.getrandbits(40)
         # quick tier: the option sweep (3 subgroups) on the first three structures of the stratified sample only
         n_sub = 3 if (ctx.tier == "thorough" or i % 5 < 3) else 0
-        check_structure(ctx, name, S[name], sub, n_k=ctx.n(2, 4), max_g=ctx.n(6, 200), n_sub=n_sub,
+        check_structure(ctx, name, S[name], sub, n_k=ctx.n(2, 3), max_g=ctx.n(6, 200), n_sub=n_sub,
                         tower=ctx.tier == "thorough")
         if ctx.failures and not ctx.searching:
             break
@@ -739,6 +754,10 @@ def oracle(ctx, scale):
             break
     if ctx.tier == "thorough" and scale == 1 and not ctx.failures:
         oracle_from_wannierdata(ctx)
+    wr = ctx.__dict__.get("_c20_rep_worst")
+    if wr:
+        ctx.note("hypotheses of average_block_is_group_average on the real Dwann data, worst defects: "
+                 + ", ".join(f"{k}={v:.1e}" for k, v in wr.items()))
     w = ctx.__dict__.get("_c20_worst")
     if w:
         ctx.note("worst deviations: " + ", ".join(f"{k}={v:.2e}" for k, v in w.items()))
@@ -786,18 +805,171 @@ def orbit_minima(tables, N):
     return sorted({find(x) for x in range(N)})
 
 
+def check_rep_hypotheses(ctx, name, sym, ops, rs, max_pairs=1500):
+    """the hypotheses of theorem average_block_is_group_average (structure BlockRep) on the real Dwann data of this
+    symmetrizer: atom maps are a group action; T(gh,a)-T(gh,b) = g(T(h,a)-T(h,b)) + T(g,ha)-T(g,hb); the orbital matrices
+    are unitary and satisfy D(gh,a) = w(g,h) D(g,ha) conj^{tr g}(D(h,a)) with one unimodular phase w(g,h) for all atoms and
+    blocks; D(1,a) is a common unimodular scalar; the Cartesian matrices are a real representation"""
+    n = len(ops)
+    index = {_op_key(g["W"], g["t"], g["TR"]): i for i, g in enumerate(ops)}
+    ident = index[_op_key(np.eye(3, dtype=int), np.zeros(3), False)]
+    pairs = [(g, h) for g in range(n) for h in range(n)]
+    if len(pairs) > max_pairs:
+        pairs = [pairs[i] for i in rs.choice(len(pairs), max_pairs, replace=False)]
+    nbl = len(sym.rot_orb_list)
+    worst = dict(atom=0.0, T=0.0, D=0.0, phase=0.0, unitary=0.0, cart=0.0)
+    syms = sym.spacegroup.symmetries
+    for g, h in pairs:
+        W = ops[g]["W"] @ ops[h]["W"]
+        t = ops[g]["W"] @ ops[h]["t"] + ops[g]["t"]
+        gh = index.get(_op_key(W, t, ops[g]["TR"] != ops[h]["TR"]))
+        if gh is None:
+            ctx.mismatch(f"{name}: the listed operations are not closed under composition", dict(g=g, h=h))
+            return
+        worst["cart"] = max(worst["cart"], np.abs(syms[gh].rotation_cart - syms[g].rotation_cart @ syms[h].rotation_cart).max(),
+                            np.abs(np.imag(syms[g].rotation_cart)).max())
+        phases = []
+        for bl in range(nbl):
+            amap, D = sym.atommap_list[bl], sym.rot_orb_list[bl]
+            for a in range(amap.shape[0]):
+                ha = amap[a, h]
+                if amap[a, gh] != amap[ha, g]:
+                    worst["atom"] = 1.0
+                Dh = D[a, h].conj() if ops[g]["TR"] else D[a, h]
+                M = D[ha, g] @ Dh
+                w = np.trace(M.conj().T @ D[a, gh]) / np.trace(M.conj().T @ M)
+                worst["D"] = max(worst["D"], np.abs(D[a, gh] - w * M).max())
+                worst["phase"] = max(worst["phase"], abs(abs(w) - 1))
+                phases.append(w)
+                worst["unitary"] = max(worst["unitary"], np.abs(D[a, g].conj().T @ D[a, g] - np.eye(D.shape[-1])).max())
+        worst["phase"] = max(worst["phase"], max(abs(w - phases[0]) for w in phases))
+        for b1 in range(nbl):
+            for b2 in range(nbl):
+                T1, T2, m1, m2 = sym.T_list[b1], sym.T_list[b2], sym.atommap_list[b1], sym.atommap_list[b2]
+                for a in range(m1.shape[0]):
+                    for b in range(m2.shape[0]):
+                        lhs = T1[a, gh] - T2[b, gh]
+                        rhs = ops[g]["W"] @ (T1[a, h] - T2[b, h]) + T1[m1[a, h], g] - T2[m2[b, h], g]
+                        worst["T"] = max(worst["T"], float(np.abs(lhs - rhs).max()))
+    z = [sym.rot_orb_list[bl][a, ident] for bl in range(nbl) for a in range(sym.atommap_list[bl].shape[0])]
+    z0 = z[0][0, 0]
+    worst["unitary"] = max([worst["unitary"], abs(abs(z0) - 1)] + [np.abs(m - z0 * np.eye(m.shape[0])).max() for m in z])
+    ctx.count("oracle.rep_hypotheses_checked")
+    w = ctx.__dict__.setdefault("_c20_rep_worst", {})
+    for k, v in worst.items():
+        w[k] = max(w.get(k, 0.0), float(v))
+    if max(worst.values()) > 1e-10:
+        ctx.mismatch(f"{name}: the symmetrizer's ingredients violate a hypothesis of average_block_is_group_average: "
+                     + ", ".join(f"{k}={v:.2e}" for k, v in worst.items()), dict(structure=name))
+
+
+def avg_lines(ctx, rng, name, sym, iRvec, lines, expect, tags, label):
+    """the real SymWann.average_XX_block (mode 'sum') on exact dyadic input for spinless blocks, against the model's
+    blockAvgEntry fed with the real ingredients (rotation, T, atom maps, rot_orb, rotation_cart and parities)"""
+    from wannierberri.symmetry.sym_wann_2 import SymWann, _matrix_to_dict
+    with quiet():
+        sw = SymWann(symmetrizer=sym, iRvec=iRvec, silent=True)
+    syms = sym.spacegroup.symmetries
+    use = list(sw.use_symmetries_index)
+    if label == "subset" and len(use) > 2:
+        use = rng.sample(use, rng.randint(1, len(use) - 1))
+    if len(use) > 16:          # the comparison does not need a group: keep the protocol lines small
+        use = rng.sample(use, 16)
+    sw.use_symmetries_index = use
+    nR = sw.nRvec
+    nbl = sw.num_blocks_left
+    pairs = [(b1, b2) for b1 in range(nbl) for b2 in range(nbl)]
+    for b1, b2 in rng.sample(pairs, min(len(pairs), 2)):
+        if True:
+            n1, n2 = sw.num_orb_list_left[b1], sw.num_orb_list_right[b2]
+            na1, na2 = sw.num_points_list_left[b1], sw.num_points_list_right[b2]
+            if np.abs(np.imag(sym.rot_orb_list[b1])).max() > 0 or np.abs(np.imag(sym.rot_orb_list[b2])).max() > 0:
+                continue
+            for key, nc in (("Ham", 1), ("AA", 3)):
+                if nR * na1 * na2 > 120 or nR * na1 * na2 * len(use) > 4000:
+                    ctx.count("corr.avg.skipped_large")
+                    continue
+                shape = (nR, na1 * n1, na2 * n2) + ((3,) if nc == 3 else ())
+                Xr = np.array([[rng.randint(-8, 8) / 4 for _ in range(int(np.prod(shape[1:])))] for _ in range(nR)])
+                Xr = Xr.reshape(shape).astype(complex)
+                iRab = sw.find_irreducible_Rab(block1=b1, block2=b2)
+                mdict = {key: _matrix_to_dict(Xr, np1=na1, norb1=n1, np2=na2, norb2=n2, cutoff=-1)}
+                with quiet():
+                    res, _ = sw.average_XX_block(iRab_new=iRab, matrix_dict_in=mdict, iRvec_origin=sw.iRvec, mode="sum",
+                                                 block1=b1, block2=b2)
+                targets = sorted((tuple(int(x) for x in sw.iRvec[iR]) + (a, b), iR) for (a, b), v in iRab.items() for iR in v)
+                if len(targets) > 3:
+                    targets = sorted(rng.sample(targets, 3))
+                keys, vals = [], []
+                for iR in range(nR):
+                    for a in range(na1):
+                        for b in range(na2):
+                            keys.append(list(int(x) for x in sw.iRvec[iR]) + [a, b])
+                            blk = Xr[iR, a * n1:(a + 1) * n1, b * n2:(b + 1) * n2]
+                            for j in range(nc):
+                                m = blk[..., j] if nc == 3 else blk
+                                vals += [[F(float(x.real)) for x in row] for row in m]
+                Wr, trs, rcs, am1, am2, t1, t2, d1, d2 = [], [], [], [], [], [], [], [], []
+                for isym in use:
+                    op = syms[isym]
+                    Wr += [[int(x) for x in row] for row in op.rotation]
+                    trs.append(1 if op.time_reversal else 0)
+                    sgn = 1.0
+                    if op.inversion:
+                        sgn *= sw.parity_I[key] * (-1) ** (1 if nc == 3 else 0)
+                    if op.time_reversal:
+                        sgn *= sw.parity_TR[key]
+                    rc = op.rotation_cart * sgn if nc == 3 else np.array([[sgn]])
+                    rcs += [[F(float(x)) for x in row] for row in rc]
+                    am1.append([int(x) for x in sym.atommap_list[b1][:, isym]])
+                    am2.append([int(x) for x in sym.atommap_list[b2][:, isym]])
+                    t1 += [[int(x) for x in sym.T_list[b1][a, isym]] for a in range(na1)]
+                    t2 += [[int(x) for x in sym.T_list[b2][b, isym]] for b in range(na2)]
+                    for a in range(na1):
+                        d1 += [[F(float(x.real)) for x in row] for row in sym.rot_orb_list[b1][a, isym]]
+                    for b in range(na2):
+                        d2 += [[F(float(x.real)) for x in row] for row in sym.rot_orb_list[b2][b, isym]]
+                line = " ".join(["avg", str(n1), str(n2), str(nc), str(na1), str(na2),
+                                 intss([list(t[0]) for t in targets]), intss(keys), ratss(vals), intss(Wr), ints(trs),
+                                 ratss(rcs), ";".join(ints(x) for x in am1), ";".join(ints(x) for x in am2), intss(t1),
+                                 intss(t2), ratss(d1), ratss(d2), rat(F(1) / len(use))])
+                got = []
+                for (t, iR) in targets:
+                    a, b = t[3], t[4]
+                    M = res[key][(a, b)][iR]
+                    if np.ndim(M) == 0:       # no listed operation maps this (R,a,b) into the stored set: the code leaves 0
+                        M = np.zeros((n1, n2) + ((3,) if nc == 3 else ()), dtype=complex)
+                    for i in range(nc):
+                        m = M[..., i] if nc == 3 else M
+                        got += [[complex(x) for x in row] for row in np.asarray(m)]
+                lines.append(line)
+                expect.append(got)
+                tags.append(("avg", name, label, b1, b2, key, len(use), len(targets)))
+                ctx.count(f"corr.avg.{key}.{label}")
+
+
 def corr(ctx):
     from wannierberri.symmetry.sym_wann_2 import SymWann
     rng = ctx.rng
     S = structures(rng)
     light = [n for n in S if S[n]["heavy"] <= (1 if ctx.tier == "quick" else 3)]
-    chosen = rng.sample(light, min(len(light), ctx.n(3, 12)))
+    chosen = rng.sample(light, min(len(light), ctx.n(3, 8)))
+    if not any(not S[n]["soc"] for n in chosen):
+        chosen[-1] = rng.choice([n for n in light if not S[n]["soc"]])
     lines, expect, tags = [], [], []
     for name in chosen:
         st = S[name]
         sub = rng.getrandbits(40)
         with ctx.attempt(f"symmetrize({name}) for the irreducible-set correspondence", dict(structure=name, sub_seed=sub)):
             s, sym, s0 = build_symmetrized(name, st, sub, nR=rng.choice([2, 3]))   # small sets keep the tables small
+            if not st["soc"]:
+                # the block formula itself (real orbital matrices => exact rational arithmetic in the model)
+                if ctx.tier == "thorough":
+                    avg_lines(ctx, rng, name, sym, s0.rvec.iRvec, lines, expect, tags, "open")
+                avg_lines(ctx, rng, name, sym, s0.rvec.iRvec, lines, expect, tags, "subset")
+                small = [r for r in s.rvec.iRvec if np.abs(r).max() <= 1]
+                if 0 < len(small) <= 27:
+                    avg_lines(ctx, rng, name, sym, np.array(small), lines, expect, tags, "box")
             for label, iRvec in (("closed", s.rvec.iRvec), ("open", s0.rvec.iRvec)):
                 # after symmetrisation the R set is closed under the group; the raw random set is not
                 with quiet():
@@ -829,6 +1001,14 @@ def corr(ctx):
                                       + (".closed_set" if closed else ".partial_maps"))
     out = ctx.lean(lines)
     for l, o, e, t in zip(lines, out, expect, tags):
+        if t[0] == "avg":
+            ctx.case(signature=(t, len(l)), nontrivial=t[6] > 1)
+            model = parse_ratss(o)
+            ok = len(model) == len(e) and all(len(r) == len(c) for r, c in zip(model, e))
+            dmax = max((abs(complex(float(x)) - y) for r, c in zip(model, e) for x, y in zip(r, c)), default=0.0) if ok else 1.0
+            if not ok or dmax > 1e-12:
+                ctx.mismatch(f"average_XX_block {t[1:]}: model and code differ by {dmax:.3e}", dict(tag=t, line=l[:500]))
+            continue
         ctx.case(signature=(t[:6], o), nontrivial=t[5] > 2)
         model = parse_ints(o)
         if model != e:
